@@ -7,6 +7,9 @@ open Afkak.Consumer Afkak.Monitor Afkak.Consts
 
 variable [EnvHyp]
 
+-- every leaf lemma checks nine invariant components on every path of a handler
+set_option maxHeartbeats 800000
+
 theorem stopReq_pres (cfg : Cfg) : Pres cfg (stopReq cfg) := by
   intro s hs
   have hx := Good.refl hs
@@ -57,8 +60,8 @@ theorem stopBlockProc_good {s0 s : St} (h : Good cfg s0 s) (hst : s.stopping = t
       | none => rfl
       | some fr => exact absurd (h.1.g1.frameProc (by rw [hff]; rfl)) (by rw [hp]; simp)
     simp only [stopBlock_proc, hp]
-    obtain ⟨g1, p1, st1, l1, y1⟩ := procFired_stop_good hin g (.ext .cancelled 0) (by intro h; cases h) h.1 hp hst
-    have h2 := fun p => procResume_good hin hc g p g1 p1 (by rw [g1.2]; exact hf) (Or.inr st1) l1 y1
+    obtain ⟨g1, p1, st1, l1, y1, z1⟩ := procFired_stop_good hin g (.ext .cancelled 0) (by intro h; cases h) h.1 hp hst
+    have h2 := fun p => procResume_good hin hc g p g1 p1 (by rw [g1.2]; exact hf) (Or.inr st1) l1 y1 (fun _ => z1)
     refine Good.trans h ?_
     unfold procResult
     simp only []
@@ -103,7 +106,7 @@ theorem stopCore_pres : Pres cfg (stopCore cfg inner) := by
   unfold stopCore
   simp only []
   exact stopFinish_good ((stopTimers_pres cfg).step ((stopCommitReq_pres hin).step ((cancelWaiters_pres hin _).step h3))) q4.2
-    c4.2.1 c4.2.2
+    c4.2.1 c4.2.2 q4.1
 
 omit hin hc in
 theorem stopCore_startD (s : St) : (stopCore cfg inner s).startD = .none := by
